@@ -38,6 +38,8 @@ for W in (8, 16, 32, 64):
     for cc in (True, False):
         tier = "quick" if W in (8, 64) else "thorough"
         for fn, (full, loopk) in R0_CFG.items():
+            if fn in ("div__int", "div__int_short") and W >= 16:
+                continue  # divider/multiplier miter: > 600 s on kissat at W = 16 and 32 (both builds), see not_covered
             extra = ["VF_FN_" + fn]
             fns = [full]
             kw = {}
@@ -182,14 +184,14 @@ for key, full, repl, qn, tn in R2:
 DIV_REPL = ["bn_is_zero", "bn_cmp", "bn_assign_digit", "bn_assign_zero", "bn_assign", "bn_digit_clz", "bn_assign_init",
             "bn_init_digits__int", "bn_l_shift", "bn_r_shift", "bn_digit_div__int_short", "bn_digits_sub_digit_mult__int",
             "bn_digits_cmp", "bn_digits_sub__int", "bn_update_digits__int"]
-for nd, tier in ((2, "thorough"), (3, "thorough")):
+for nd, tier in ():  # bn_div: contract, harness and job definition kept; the modular proof did not finish (see not_covered)
     W = 8
     job("r2.bn_div.w%d.n%d" % (W, nd), "bn2.c",
         cfg(W, True, bitlen=W * nd, extra=["VF_FN_div", "VF_BN_ASSUME_DISTRIB"] + vb(W * nd)),
         enforce=["bn_div"], replace=DIV_REPL, functions=["bn_div"], route="bounded", backend="kissat",
-        bound="W = 8, capacity %d digits, all four remainder forms (separate object, NULL, remainder == bn, bn == d); loops unwound 10 times with unwinding assertion; callees replaced by their contracts" % nd,
+        bound="W = 8, capacity %d digits, all four remainder forms (separate object, NULL, remainder == bn, bn == d); loops unwound 7 times with unwinding assertion; callees replaced by their contracts" % nd,
         assumptions=[DISTRIB_ASSUME], tier=tier, timeout=1200,
-        cbmc=["--unwind", "10", "--unwindset", "__CPROVER_contracts_write_set_check_assigns_clause_inclusion.0:40,__CPROVER_contracts_write_set_check_frees_clause_inclusion.0:40", "--unwinding-assertions", "--object-bits", "10"])
+        cbmc=["--unwind", "7", "--unwindset", "vf_d_clz.0:10,vf_d_ctz.0:10,vf_d_popcount.0:10,__CPROVER_contracts_write_set_check_assigns_clause_inclusion.0:40,__CPROVER_contracts_write_set_check_frees_clause_inclusion.0:40", "--unwinding-assertions", "--object-bits", "10"])
 
 # ------------------------------------------------------------------ rung 2: recodings (plain, monolithic, bounded scalars)
 for key, full in (("naf", "bn_calc_naf"), ("jsf", "bn_calc_jsf"), ("combo", "bn_combo_column_get")):
@@ -238,21 +240,19 @@ for key, full, repl, nonlinear in R3:
             cbmc=["--unwind", str(nd + 2), "--unwindset", "__CPROVER_contracts_write_set_check_assigns_clause_inclusion.0:40,__CPROVER_contracts_write_set_check_frees_clause_inclusion.0:40", "--unwinding-assertions", "--object-bits", "10"])
 
 # ------------------------------------------------------------------ rung 3, loop functions: safety / error propagation / domain (modular)
-CL = "__CPROVER_contracts_write_set_check_assigns_clause_inclusion.0:40,__CPROVER_contracts_write_set_check_frees_clause_inclusion.0:40"
+CL = "vf_d_clz.0:10,vf_d_ctz.0:10,vf_d_popcount.0:10,__CPROVER_contracts_write_set_check_assigns_clause_inclusion.0:40,__CPROVER_contracts_write_set_check_frees_clause_inclusion.0:40"
+def loopset(fn, n):
+    return ",".join("%s.%d:%d" % (fn, k, n) for k in range(16))
 R3L = [
- ("mod_exp_digit", "bn_mod_exp_digit", ["bn_assign_digit", "bn_mod_mult", "bn_assign_init"], 70, "finite",
-  "loop over the 64 bits of the size_t exponent (type bound), fully unwound"),
- ("mod_exp", "bn_mod_exp", ["bn_assign_digit", "bn_mod_mult", "bn_assign_init", "bn_calc_bits", "bn_is_bit_set"], 0, "bounded",
-  "exponent of at most BN_BIT_LEN = 16 bit (loop over its bits fully unwound)"),
- ("mod_div", "bn_mod_div", ["bn_assign_init", "bn_mod_inv_bin", "bn_mod_mult"], 4, "finite", ""),
+ ("mod_div", "bn_mod_div", ["bn_assign_init", "bn_mod_inv_bin", "bn_mod_mult"], "", "finite", ""),
 ]
-for key, full, repl, uw, route, bound in R3L:
+for key, full, repl, us, route, bound in R3L:
     W, nd = 8, 2
     job("r3.%s.safety.w%d.n%d" % (full, W, nd), "bn3.c",
         cfg(W, True, bitlen=W * nd, extra=["VF_FN_" + key] + vb(W * nd)),
         enforce=[full], replace=repl, functions=[full], route=route, bound=bound, backend="kissat",
         tier="thorough", timeout=900,
-        cbmc=["--unwind", str(uw or (W * nd + 3)), "--unwindset", CL, "--unwinding-assertions", "--object-bits", "10"])
+        cbmc=["--unwind", "6", "--unwindset", CL + ("," + us if us else ""), "--unwinding-assertions", "--object-bits", "10"])
 
 # ------------------------------------------------------------------ tier overrides from measured times (quick: <= ~90 s each on an idle 16-core box)
 import re
@@ -280,10 +280,10 @@ EXPLANATION = (
  "structural, bitwise, additive functions with symbolic count, digits, STALE digits above `digits` and harness-chosen aliasing "
  "(r1c.*); import/export be/le x bin/hex against the number the bytes/text denote (r1d.*). "
  "Rung 2 (r2.*): multiplicative layer, modular (callees replaced by their contracts), W = 8 and <= 4 digits: digit-array "
- "multiply-accumulate functions against the sum of per-digit products, bn_mult / bn_square / bn_mult_digit / bn_div against "
- "product, quotient and remainder; NAF / JSF / comb column by executing the whole function for every scalar up to 8 (16) bits. "
+ "multiply-accumulate functions against the sum of per-digit products, bn_mult / bn_square / bn_mult_digit against the "
+ "exact product (bn_div: contract written, not proved); NAF / JSF / comb column by executing the whole function for every scalar up to 8 (16) bits. "
  "Rung 3 (r3.*): bn_mod, bn_mod_add/sub/mult/mult_digit/square/reduce value contracts proved modularly (bn_mod_add at the shipped "
- "W=64 x 22-digit configuration too); bn_mod_exp(_digit), bn_mod_div: return-code set, domain checks, error propagation, "
+ "W=64 x 22-digit configuration too); bn_mod_div: return-code set, domain checks, error propagation, "
  "well-formed result. Every harness ends in a reachability canary; failing obligations that were confirmed natively on the "
  "real code are listed in known_findings.d/C01.json with patches in proposed_fixes/bignum-*.diff; the ledger is generated from "
  "the tree that contains those patches.")
@@ -297,13 +297,14 @@ ASSUMPTIONS = [
 ]
 NOT_COVERED = [
  "portable bn_digit_mult__int (no BN_CC_MULL_DIV), general Knuth-M path, W >= 16: undecided by MiniSat, CaDiCaL, kissat, z3, cvc5 (> 300 s each, also with a term-aligned spec); W = 8 is proved, W = 16 is enumerated natively (all 2^32 pairs, reported as exhaustive_native, not as a deductive obligation), W = 32/64 shortcut paths (0, 1, power of two) only",
- "bn_digit_div__int / bn_digit_div__int_short: proved at W = 8 (both builds); the W = 16/32/64 jobs are registered in the thorough tier and reported UNDECIDED when the back end does not finish (division/multiplication miter)",
+ "bn_digit_div__int / bn_digit_div__int_short: proved at W = 8 only (both builds, kissat 40-180 s); W = 16 and W = 32 did not finish in 600 s (divider/multiplier miter), W = 64 not attempted further - not registered; the wrapper bn_digit_div is proved at every width against the contract of bn_digit_div__int",
  "128-bit digits (no double-width type): not built",
  "capacities above the verified ones: value contracts are proved for <= 4 digits (8 digits at W=8 in the thorough tier); the unbounded jobs prove memory safety / frame / termination / carry range only; bn_digits_l_shift / bn_digits_r_shift have NO unbounded job (memmove/memset with symbolic length: > 240 s on every attempt, also with arrays capped at 64 digits) - only the bounded value jobs",
  "intra-object overflow: cbmc's bounds check for a member array reached through a pointer is object-granular, so an index such as num[(size_t)-1] that stays inside the bn_t object is not flagged (bn_sub with both operands zero reads num[digits - 1] with digits == 0: value unused, not detected by any obligation, not confirmed by UBSan either)",
- "rung 2 is W = 8 only and <= 4 digits (bn_mult, bn_div <= 3 digits); the digit-array multiply functions are proved against the sum of per-digit products, the closed product form used by their callers rests on the distributivity identity listed in those jobs' assumptions",
+ "bn_div: the contract (contracts/bn_mul.h: EINVAL iff d == 0, exact quotient/remainder, all remainder forms) is NOT proved: the modular job (15 callees replaced by contracts, W = 8, 2 and 3 digits, kissat) did not finish in 35 min; its contract is nevertheless what the bn_mod / bn_mod_* proofs assume",
+ "rung 2 is W = 8 only and <= 4 digits (bn_mult <= 3 digits); the digit-array multiply functions are proved against the sum of per-digit products, the closed product form used by their callers rests on the distributivity identity listed in those jobs' assumptions",
  "bn_exp_digit, bn_digit_egcd, bn_mod_small, bn_mod_legendre: no contract",
- "rung 3 loop functions: bn_mod_inv_bin, bn_gcd, bn_gcd_bin, bn_sqrt1, bn_mod_sqrt have no proved contract (not attempted for lack of time; bn_mod_inv_bin's domain/return-code contract is only USED, as an assumption, by the bn_mod_div job); bn_mod_exp(_digit) value (bn^e mod m) not proved, only e in {0,1,2}",
+ "rung 3 loop functions: bn_mod_inv_bin, bn_gcd, bn_gcd_bin, bn_sqrt1, bn_mod_sqrt have no proved contract (not attempted for lack of time; bn_mod_inv_bin's domain/return-code contract is only USED, as an assumption, by the bn_mod_div job); bn_mod_exp / bn_mod_exp_digit: safety contracts written (contracts/bn_mod.h) but the modular jobs did not get through in the time available (first attempt cbmc rc 6 / 1800 s timeout with a global unwind bound, second attempt stopped at the exponent loop's unwinding assertion) - not registered",
  "import/export digit-array level (bn_digits_import_*/export_*) unbounded safety jobs: not registered (the bn_t-level jobs execute those bodies for buffers <= 8..18 bytes); export hex at W=64 runs out of memory (12 GB) in symbolic execution",
  "outside the claim as stated by the property: Barrett reduction, bn_egcd, bn_mod_inv3, bn_sqrt4 (and the non-selected bn_sqrt2/3/5, bn_mod_inv1/2, bn_mod_inv_mont, bn_mod_div_mont)",
 ]
